@@ -281,6 +281,8 @@ def cexFn : Stmt :=
 
 /-- The program is in the modelled language and in the class of the finding. -/
 example : fnSupported cexFn = true ∧ fnNoJumpInHandlerOfTryWithFinally cexFn = false := by decide
+/-- … so it is outside the hypotheses of `C05_paths` (it has the parsed shape and distinct keys; only the class predicate fails). -/
+example : fnFrag3 cexFn = false ∧ fnParsedShape cexFn = true ∧ fnDistinctKeys3 cexFn = true := by decide
 
 /-- With the oracle `[0]` (the first handler catches) the walk is `args, raise, return, x = a`. -/
 example : walkFn 10 cexFn [0] = ([2, 5, 9, 11], .ret, []) := by decide
